@@ -723,7 +723,7 @@ impl World {
                     Some(b) => {
                         g.counts.inject += 1;
                         // log as an injected send, then enqueue
-                        let pdu = PDU::decode(&mut b.as_slice()).ok();
+                        let pdu = safe_decode(b.as_slice());
                         let kind = pdu.as_ref().map(kind_of).unwrap_or(Kind::Bad);
                         let now = self.now_us();
                         let seq = self.push(
@@ -1237,7 +1237,7 @@ pub fn run(sc: &Scenario, root: &Utf8PathBuf, opts: &RunOpts) -> RunRecord {
                 let mut inbox_rx = inbox_rx;
                 aux.push(tokio::spawn(async move {
                     while let Some((src, send_seq, bytes)) = inbox_rx.recv().await {
-                        let pdu = PDU::decode(&mut bytes.as_slice()).ok();
+                        let pdu = safe_decode(bytes.as_slice());
                         w.recv_event(i, src, send_seq, bytes, pdu);
                     }
                 }));
@@ -1579,8 +1579,24 @@ pub fn snapshot_tree(p: &std::path::Path) -> Vec<(String, Option<Vec<u8>>)> {
     out
 }
 
+thread_local! {
+    static HARNESS_DECODE: std::cell::Cell<bool> = const { std::cell::Cell::new(false) };
+}
+
+/// decode for the harness's own bookkeeping (trace of injected datagrams, scripted peers): a
+/// decoder panic here is not attributed to the system under test
+pub fn safe_decode(bytes: &[u8]) -> Option<PDU> {
+    HARNESS_DECODE.with(|h| h.set(true));
+    let r = std::panic::catch_unwind(|| PDU::decode(&mut &bytes[..]).ok()).unwrap_or(None);
+    HARNESS_DECODE.with(|h| h.set(false));
+    r
+}
+
 pub fn install_panic_hook() {
     std::panic::set_hook(Box::new(|info| {
+        if HARNESS_DECODE.with(|h| h.get()) {
+            return;
+        }
         let msg = if let Some(s) = info.payload().downcast_ref::<&str>() {
             s.to_string()
         } else if let Some(s) = info.payload().downcast_ref::<String>() {
@@ -1589,6 +1605,9 @@ pub fn install_panic_hook() {
             "panic".to_string()
         };
         let loc = info.location().map(|l| format!("{}:{}", l.file(), l.line())).unwrap_or_default();
+        if std::thread::current().name() == Some("main") || std::env::var("VERIF_PANIC_PRINT").is_ok() {
+            eprintln!("panic: {} @ {}", msg, loc);
+        }
         PANICS.with(|p| p.borrow_mut().push(format!("{} @ {}", msg, loc)));
     }));
 }
